@@ -105,6 +105,8 @@ pub struct Ctx {
     pub can_skip: bool,
     /// properties refuted by a crate panic that escapes a case of the current workload
     pub panic_props: Vec<&'static str>,
+    /// (property, signature) of deviations observed while no fault was in play
+    pub baseline: HashSet<(&'static str, String)>,
 }
 
 impl Ctx {
@@ -136,6 +138,7 @@ impl Ctx {
             skip_upto: 0,
             can_skip: true,
             panic_props: Vec::new(),
+            baseline: HashSet::new(),
         }
     }
 
@@ -188,14 +191,26 @@ impl Ctx {
 
     pub fn violation(&mut self, prop: &'static str, sig: String, detail: String) {
         // follow-up operations after an injected fault: a deviation refutes the fault property
+        // Deviations of follow-up operations after an injected fault refute the fault property -
+        // unless the very same deviation (same property, same structural signature) has also been
+        // seen in this process where no fault had been injected: then it does not depend on the
+        // fault and stays with its own property.
         let (prop, sig) = match self.attribute {
             Some(p) if matches!(prop, "C01" | "C02" | "C03" | "C07" | "C09" | "C11" | "C20" | "C17") => {
                 if matches!(prop, "C20" | "C17") {
                     return;
                 }
-                (p, format!("via:{}:{}", prop, sig))
+                if self.baseline.contains(&(prop, sig.clone())) {
+                    (prop, sig)
+                } else {
+                    (p, format!("via:{}:{}", prop, sig))
+                }
             }
-            _ => (prop, sig),
+            Some(_) => (prop, sig),
+            None => {
+                self.baseline.insert((prop, sig.clone()));
+                (prop, sig)
+            }
         };
         let key = (prop, sig.clone());
         if let Some(&i) = self.viol_idx.get(&key) {
